@@ -30,6 +30,8 @@ package abft
 //@ ghost gApplyRes *pos.Validators
 //@ ghost nLoaded int
 //@ // idxFlushed / idxPending / idxAddN: abstract state of the DAG index (see C07 below)
+//@ // gArrFrame[a]: the frame whose cached root list lives in the array a (cached lists do not share arrays)
+//@ ghost gArrFrame[int] int
 //@ ghost idxFlushed int
 //@ ghost idxPending int
 //@ ghost idxAddN int
@@ -47,8 +49,9 @@ package abft
 //@   pure
 //@ funcfield Orderer.crit
 //@   ensures true
+//@ // the store's crit callback reports an unrecoverable storage error and does not return (it panics or exits)
 //@ funcfield Store.crit
-//@   ensures true
+//@   ensures false
 //@
 //@ // assumed of the store (to be discharged for GetFrameRoots/AddRoot by C33): the ghost model is what the
 //@ // RLP-encoded, cached records hold
@@ -432,3 +435,67 @@ package abft
 //@ func rootRecordKey
 //@   requires r != nil
 //@   ensures  isRootKey(result, deref(r))
+//@ // rsinv(s): the roots cache maps frame numbers to lists of root records of that frame
+//@ spec rcached(s *Store, f int) bool = lhas(s.cache.FrameRoots, box(f, "idx.Frame"))
+//@ spec rlist(s *Store, f int) []election.RootAndSlot = unbox(lval(s.cache.FrameRoots, box(f, "idx.Frame")), "[]election.RootAndSlot")
+//@ inv Store rsinv(s): s != nil && s.crit != nil && s.epochTable.Roots != nil && lruinv(s.cache.FrameRoots) && within(s.cache.FrameRoots) && s.cache.FrameRoots.maxWeight <= 4611686018427387904 && s.cache.FrameRoots.maxSize >= 0 &&
+//@   forall(k interface{}, lhas(s.cache.FrameRoots, k) ==> typeis(k, "idx.Frame") && typeis(lval(s.cache.FrameRoots, k), "[]election.RootAndSlot"))
+//@
+//@ // addRoot: the record is written to the roots table under its 40-byte key with an empty value; a cached list of the
+//@ // frame is extended by exactly this record, other cached lists are untouched (or evicted), nothing is cached anew
+//@ func (*Store).addRoot
+//@   requires rsinv(s) && root != nil
+//@   modifies gKeyValueWriterPutN, gKeyValueWriterPutRecv, gKeyValueWriterPutA0, gKeyValueWriterPutA1, gKeyValueWriterPutR0, s.cache.FrameRoots.items[*], s.cache.FrameRoots.weight, lel[s.cache.FrameRoots.evictList], llen[s.cache.FrameRoots.evictList], lidx[*], lown[*], nEvict, gEvictKey, gEvictVal, all(simplewlru.entry).value, all(simplewlru.entry).weight, rlist(s, frame)[*]
+//@   ensures  [i1] lruinv(s.cache.FrameRoots) && within(s.cache.FrameRoots)
+//@   ensures  [i2] forall(k interface{}, lhas(s.cache.FrameRoots, k) ==> typeis(k, "idx.Frame") && typeis(lval(s.cache.FrameRoots, k), "[]election.RootAndSlot"))
+//@   ensures  rsinv(s)
+//@   ensures  [put] gKeyValueWriterPutN == old(gKeyValueWriterPutN) + 1 && gKeyValueWriterPutRecv == s.epochTable.Roots && len(gKeyValueWriterPutA1) == 0 && isRootKey(gKeyValueWriterPutA0, mk("election.RootAndSlot", root.ID(), mk("election.Slot", frame, root.Creator())))
+//@   ensures  [cached] rcached(s, frame) ==> old(rcached(s, frame)) && len(rlist(s, frame)) == old(len(rlist(s, frame))) + 1 && forall(j, 0, old(len(rlist(s, frame))), rlist(s, frame)[j] == old(rlist(s, frame))[j]) && rlist(s, frame)[old(len(rlist(s, frame)))] == mk("election.RootAndSlot", root.ID(), mk("election.Slot", frame, root.Creator()))
+//@   ensures  [others] forall(g idx.Frame, g != frame && rcached(s, g) ==> old(rcached(s, g)) && rlist(s, g) == old(rlist(s, g)))
+//@
+//@ // GetFrameRoots (verified against the real cache and table, view "real"; callers use the model-level contract above):
+//@ // a cached frame is answered from the cache without touching the table; otherwise one iterator over the roots table is
+//@ // opened with the 4-byte big-endian frame number as prefix and no start key, every key it yields has 40 bytes, the
+//@ // right frame, and is decoded into the j-th result (frame, validator, event ID as stored in the key), and the list is cached
+//@ viewfunc real (*Store).GetFrameRoots
+//@   requires rsinv(s)
+//@   modifies gIteratorNextN, gIteratorNextRecv, gIteratorNextR0, gIteratorKeyN, gIteratorKeyRecv, gIteratorKeyR0, gIteratorKeyAt[*], gIteratorErrorN, gIteratorErrorRecv, gIteratorErrorR0, gIteratorReleaseN, gIteratorReleaseRecv, gIterateeNewIteratorN, gIterateeNewIteratorRecv, gIterateeNewIteratorA0, gIterateeNewIteratorA1, gIterateeNewIteratorR0, s.cache.FrameRoots.items[*], s.cache.FrameRoots.weight, lel[s.cache.FrameRoots.evictList], llen[s.cache.FrameRoots.evictList], lidx[*], lown[*], nEvict, gEvictKey, gEvictVal, all(simplewlru.entry).value, all(simplewlru.entry).weight
+//@   ensures  rsinv(s)
+//@   ensures  [hit] old(rcached(s, f)) ==> result == old(rlist(s, f)) && gIterateeNewIteratorN == old(gIterateeNewIteratorN) && gIteratorKeyN == old(gIteratorKeyN)
+//@   ensures  [miss] !old(rcached(s, f)) ==> gIterateeNewIteratorN == old(gIterateeNewIteratorN) + 1 && gIterateeNewIteratorRecv == s.epochTable.Roots && len(gIterateeNewIteratorA0) == 4 && be32(gIterateeNewIteratorA0) == f && isnil(gIterateeNewIteratorA1)
+//@   ensures  [decode] !old(rcached(s, f)) ==> len(result) == gIteratorKeyN - old(gIteratorKeyN) && forall(j, 0, len(result), result[j].Slot.Frame == f) && forall(i, old(gIteratorKeyN), gIteratorKeyN, isRootKey(gIteratorKeyAt[i], result[i - old(gIteratorKeyN)]))
+//@   ensures  [cache] rcached(s, f) ==> rlist(s, f) == result
+//@   ensures  [released] !old(rcached(s, f)) ==> gIteratorReleaseN == old(gIteratorReleaseN) + 1 && gIteratorReleaseRecv == gIterateeNewIteratorR0
+//@   loop 1 modifies rr[*], gIteratorNextN, gIteratorNextRecv, gIteratorNextR0, gIteratorKeyN, gIteratorKeyRecv, gIteratorKeyR0, gIteratorKeyAt[*]
+//@   loop 1 invariant arrof(rr) == arrof(atentry(rr)) || arrfresh(rr, _loopalloc)
+//@   loop 1 invariant arrfresh(rr, old(_alloc)) && len(rr) == gIteratorKeyN - old(gIteratorKeyN) && gIteratorKeyN >= old(gIteratorKeyN)
+//@   loop 1 invariant [frames] forall(j, 0, len(rr), rr[j].Slot.Frame == f)
+//@   loop 1 invariant [keys] forall(i, old(gIteratorKeyN), gIteratorKeyN, isRootKey(gIteratorKeyAt[i], rr[i - old(gIteratorKeyN)]))
+//@   loop 1 invariant [keysold] forall(i, old(gIteratorKeyN), gIteratorKeyN, !arrfresh(gIteratorKeyAt[i], _alloc))
+//@   loop 1 hint assert len(rr) >= 1 ==> isRootKey(gIteratorKeyAt[gIteratorKeyN - 1], rr[len(rr) - 1])
+//@   loop 1 hint assert len(rr) >= 1 ==> !arrfresh(gIteratorKeyAt[gIteratorKeyN - 1], _alloc)
+//@   loop 1 hint assert forall(i, old(gIteratorKeyN), gIteratorKeyN - 1, gIteratorKeyAt[i] == iterold(gIteratorKeyAt[i]))
+//@   loop 1 invariant forall(i int, i < old(gIteratorKeyN) ==> gIteratorKeyAt[i] == old(gIteratorKeyAt[i]))
+//@
+//@ // AddRoot registers the root for every frame from the self-parent's frame + 1 up to its own
+//@ viewfunc real (*Store).AddRoot
+//@   requires rsinv(s) && root != nil && root.Frame() < 4294967295 && selfParentFrame < 4294967295
+//@   modifies gKeyValueWriterPutN, gKeyValueWriterPutRecv, gKeyValueWriterPutA0, gKeyValueWriterPutA1, gKeyValueWriterPutR0, s.cache.FrameRoots.items[*], s.cache.FrameRoots.weight, lel[s.cache.FrameRoots.evictList], llen[s.cache.FrameRoots.evictList], lidx[*], lown[*], nEvict, gEvictKey, gEvictVal, all(simplewlru.entry).value, all(simplewlru.entry).weight, allelems(election.RootAndSlot)
+//@   ensures  rsinv(s)
+//@   ensures  [count] gKeyValueWriterPutN == old(gKeyValueWriterPutN) + max(0, root.Frame() - selfParentFrame)
+//@   loop 1 modifies gKeyValueWriterPutN, gKeyValueWriterPutRecv, gKeyValueWriterPutA0, gKeyValueWriterPutA1, gKeyValueWriterPutR0, s.cache.FrameRoots.items[*], s.cache.FrameRoots.weight, lel[s.cache.FrameRoots.evictList], llen[s.cache.FrameRoots.evictList], lidx[*], lown[*], nEvict, gEvictKey, gEvictVal, all(simplewlru.entry).value, all(simplewlru.entry).weight, allelems(election.RootAndSlot)
+//@   loop 1 invariant rsinv(s) && selfParentFrame + 1 <= f && f <= max(selfParentFrame + 1, root.Frame() + 1) && gKeyValueWriterPutN == old(gKeyValueWriterPutN) + f - (selfParentFrame + 1)
+//@
+//@ // a new epoch DB is opened with an empty roots cache (what was cached for the previous epoch is purged)
+//@ funcfield Store.getEpochDB
+//@   params epoch
+//@ package github.com/Fantom-foundation/lachesis-base/kvdb/table
+//@ // reflection-based: assigns a table view of db to every tagged field of the struct s points to (assumed; the caller
+//@ // declares which fields)
+//@ trusted func MigrateTables
+//@ package github.com/Fantom-foundation/lachesis-base/abft
+//@ viewfunc real (*Store).openEpochDB
+//@   requires s != nil && lruinv(s.cache.FrameRoots) && s.getEpochDB != nil
+//@   modifies s.cache.FrameRoots.items[*], s.cache.FrameRoots.weight, lel[s.cache.FrameRoots.evictList], llen[s.cache.FrameRoots.evictList], lidx[*], lown[*], nEvict, gEvictKey, gEvictVal, all(simplewlru.entry).value, all(simplewlru.entry).weight, s.epochDB, s.epochTable.Roots, s.epochTable.VectorIndex, s.epochTable.ConfirmedEvent
+//@   at call table.MigrateTables[1] modifies s.epochTable.Roots, s.epochTable.VectorIndex, s.epochTable.ConfirmedEvent
+//@   ensures  result == nil && lruinv(s.cache.FrameRoots) && len(s.cache.FrameRoots.items) == 0 && forall(f idx.Frame, !rcached(s, f))
